@@ -62,6 +62,18 @@ theorem allRollback_ofGen {ms : List Msg} (h : ∀ m ∈ ms, m.Valid) : AllRollb
   · exact Or.inr ((h m hm).1 hk)
   · exact Or.inl hk
 
+/-- the driver only runs messages accepted by `Msg.validB`: they are in the domain of the theorems -/
+theorem Msg.valid_of_validB {m : Msg} (h : m.validB Table.ofGen = true) : m.Valid := by
+  simp only [Msg.validB, Bool.and_eq_true, Bool.or_eq_true, bne_iff_ne, ne_eq,
+    List.all_eq_true, List.isEmpty_iff, Bool.not_eq_eq_eq_not, Bool.not_true] at h
+  refine ⟨fun hk => ?_, ?_⟩
+  · rcases h.1 with h1 | h1
+    · exact absurd hk (by simpa using h1)
+    · exact h1
+  · rcases h.2 with h2 | h2
+    · exact Or.inl h2
+    · exact Or.inr fun s hs => h2 s hs
+
 def Op.Valid (op : Op) : Prop := ∀ m ∈ op.msgs, m.Valid
 
 theorem recomputeMsg_valid : recomputeMsg.Valid := by
